@@ -116,7 +116,71 @@ func runVector(v *Vector) *Case {
 	return c
 }
 
-func cmdRewrite(in, out string) error {
+// selfCheck verifies that rendering a term and abstracting the parsed text
+// gives the term back (so TLC and the real code talk about the same thing).
+func selfCheck(v *Vector) error {
+	for _, side := range []*Term{v.Pat, v.Plus} {
+		txt := PatternText(v.Class, side)
+		back, err := PatternFromText(v.Class, txt, v.Metas)
+		if err != nil {
+			return fmt.Errorf("pattern %q does not parse back: %v", txt, err)
+		}
+		if !TermEq(back, side) {
+			return fmt.Errorf("pattern %q does not round-trip", txt)
+		}
+	}
+	return nil
+}
+
+func checkSubjects(class string, subjects []*Term) error {
+	for _, s := range subjects {
+		switch class {
+		case "expr":
+			txt := Render(s)
+			e, err := parser.ParseExpr(txt)
+			if err != nil {
+				return fmt.Errorf("subject %q: %v", txt, err)
+			}
+			// the printer adds the parentheses a right-nested tree needs
+			if !TermEq(StripParens(Alpha(e)), StripParens(s)) {
+				return fmt.Errorf("subject %q does not round-trip", txt)
+			}
+		}
+	}
+	return nil
+}
+
+func readTerms(path string) ([]*Term, error) {
+	f, err := os.Open(path)
+	if err != nil {
+		return nil, err
+	}
+	defer f.Close()
+	sc := bufio.NewScanner(f)
+	sc.Buffer(make([]byte, 1<<20), 1<<30)
+	var out []*Term
+	for sc.Scan() {
+		if strings.TrimSpace(sc.Text()) == "" {
+			continue
+		}
+		var t Term
+		if err := json.Unmarshal(sc.Bytes(), &t); err != nil {
+			return nil, err
+		}
+		out = append(out, &t)
+	}
+	return out, sc.Err()
+}
+
+func cmdRewrite(in, out, subjectsFile string) error {
+	var subjects []*Term
+	subjectsChecked := false
+	if subjectsFile != "" {
+		var err error
+		if subjects, err = readTerms(subjectsFile); err != nil {
+			return err
+		}
+	}
 	fi, err := os.Open(in)
 	if err != nil {
 		return err
@@ -142,6 +206,26 @@ func cmdRewrite(in, out string) error {
 		var v Vector
 		if err := json.Unmarshal([]byte(line), &v); err != nil {
 			return fmt.Errorf("vector %d: %w", n+1, err)
+		}
+		if v.UseSubj {
+			v.Subjects = subjects
+			if v.Stride > 1 {
+				v.Subjects = nil
+				for i := v.Offset % v.Stride; i < len(subjects); i += v.Stride {
+					v.Subjects = append(v.Subjects, subjects[i])
+				}
+			}
+			if !subjectsChecked {
+				if err := checkSubjects(v.Class, subjects); err != nil {
+					return err
+				}
+				subjectsChecked = true
+			}
+		}
+		if v.Src == "" || v.Note == "selfcheck" {
+			if err := selfCheck(&v); err != nil {
+				return fmt.Errorf("vector %s: %w", v.ID, err)
+			}
 		}
 		c := runVector(&v)
 		if strings.HasPrefix(c.Err, "harness:") {
